@@ -33,7 +33,9 @@ PROPERTY Atomic
 """
 
 # workload -> number of shards (quick, thorough)
-WORKLOADS = [("W1x64", 1, 1), ("W1a64", 1, 1), ("W2", 1, 1), ("W3", 3, 4), ("W4", 1, 1), ("W4dual", 1, 1), ("W5", 2, 3),
+# W1x64p<L>: W1x64 with the holder's arena drained to L bytes before each absolute call/jmp (arena phase sweep: which
+# arena request of add_address_to_address_table / new_reloc_entry has to open a new block, i.e. can fail)
+WORKLOADS = [("W1x64", 1, 1), ("W1a64", 1, 1)] + [("W1x64p%d" % l, 1, 1) for l in (0, 8, 16, 24, 32, 40, 48, 56, 64, 96)] + [ ("W2", 1, 1), ("W3", 3, 4), ("W4", 1, 1), ("W4dual", 1, 1), ("W5", 2, 3),
              ("W6", 1, 1), ("W7", 1, 1), ("W8", 3, 4)]
 MASKS_THOROUGH = 400      # per workload: 7 x 400 = 2800 random multi-failure patterns
 
